@@ -40,7 +40,7 @@ def make_instantiations(tier, families=None, want_toll=None):
     for arch, wl, n in fam:
         ename, tensors, outs, rvs = M.WORKLOADS[wl]
         comps = [nm for k, nm in M.ARCHS[arch]]
-        for si, sk in enumerate(M.gen_skeletons(arch, wl, n, seed(), max_loops_per_rv=2)):
+        for si, sk in enumerate(M.gen_skeletons(arch, wl, n, seed(), max_loops_per_rv=2, nomain_prob=0.15)):
             skip = {c: (rng.random() < 0.7) for c in comps}
             if si % 3 == 0:
                 skip = {c: True for c in comps}       # the default configuration
